@@ -137,6 +137,15 @@ pub fn evaluate<const D: usize>(c: &Phys, ctx: &mut Ctx, stab: Option<f64>) -> R
     }
     let (in_range, _) = ln_guard(&sym, &path.lnx0, D, nl, dod);
     let lambda_in_range = c.x[2 * ne - 2] >= crate::oracle::gamma::pq(dod, 1e-13).0.max(1e-300);
+    // every fourth case: the same sampler object has been used before with OTHER edge data (some shifts exactly zero,
+    // the others halved and displaced, masses scaled) and with the debug and metadata flags off; a sampler is a pure
+    // function of its arguments, so the call under test must not notice
+    if hx % 4 == 2 {
+        ctx.label("history:earlier-call-with-other-edge-data");
+        let m2: Vec<f64> = c.kin.masses.iter().map(|m| m * 1.5).collect();
+        let s2: Vec<Vec<f64>> = c.kin.shifts.iter().enumerate().map(|(e, v)| if (hx >> (8 + e)) & 1 == 1 { vec![0.0; v.len()] } else { v.iter().map(|a| a * 0.5 + 0.125).collect() }).collect();
+        let _ = sut::sample_f64(&s, &c.x, sut::edge_data::<D>(&g.massive, &m2, &s2), stab, false, false);
+    }
     let ed = sut::edge_data::<D>(&g.massive, &c.kin.masses, &c.kin.shifts);
     let out = match sut::sample_f64(&s, &c.x, ed, stab, true, true) {
         Ok(o) => o,
